@@ -235,6 +235,10 @@ func (p *peer) Dial(addr string, protoFunc ...ProtoFunc) (Session, *Status) {
 				sess.socket.Reset(conn, protoFunc...)
 				if oldIP == oldID {
 					sess.socket.SetID(sess.LocalAddr().String())
+					// the default id follows the local address: the entry under
+					// the former id, if the disconnect has not removed it yet,
+					// would otherwise stay in the index for ever
+					p.sessHub.deleteSessionAt(oldID, sess)
 				} else {
 					sess.socket.SetID(oldID)
 				}
